@@ -519,7 +519,8 @@ func runCrashCase(r *rep.Reporter, cc crashCase) {
 		}
 		if derr != nil || resp == nil {
 			// the connection broke: the server died (crash hook) while this operation was in flight
-			for w := 0; p1.alive() && (w < 1 || (cc.mode == "syscall" && w < 50)); w++ {
+			// (the wait only gives a dying process time to be reaped; it decides nothing)
+			for w := 0; p1.alive() && w < 50; w++ {
 				time.Sleep(200 * time.Millisecond)
 			}
 			if p1.alive() {
